@@ -151,6 +151,17 @@ def native_evans(nodes, latents, edges, order=None):
             rec["expected"] = f"nodes={sorted(v.name for v in obs)} di={sorted((u.name, v.name) for u, v in di)} bi={sorted(tuple(sorted(x.name for x in e)) for e in bi)}"
         if any(v not in s1 or s1.nodes[v].get(TAG) for v in obs):
             rec["bad"].append("observed-node-lost")
+        # the tag keyword: the same DAG tagged under another key must simplify to the same nodes and edges
+        import networkx as nx
+
+        alt = nx.DiGraph()
+        for v in order or nodes:
+            alt.add_node(v, is_latent=v in set(latents))
+        alt.add_edges_from(edges)
+        a1 = simplify_latent_dag(alt, tag="is_latent").graph
+        if (frozenset(a1.nodes()), frozenset(a1.edges())) != (st1[0], st1[2]) or any(bool(dd.get("is_latent")) != dict(st1[1])[v] for v, dd in a1.nodes(data=True)):
+            rec["bad"].append("tag-keyword")
+            rec["observed"] = f"with tag='is_latent': nodes={sorted(v.name for v in a1.nodes())} edges={sorted((u.name, v.name) for u, v in a1.edges())}"
         s2 = simplify_latent_dag(s1.copy()).graph
         if dag_state(s2) != st1:
             rec["bad"].append("idempotence")
